@@ -328,7 +328,18 @@ static std::map<std::string, SbFn> LiveFunctions(bool printTypes)
 }
 
 // ------------------------------------------------------------------ probes
-struct SbResult { std::string res; std::string text; bool truthy = false; };
+struct SbResult { std::string res; std::string text; std::string msg; bool truthy = false; };
+
+// informational only (i_compiles=, never compared): does the probe text get past the parser
+static bool SbCompiles(const std::string& code)
+{
+	try {
+		std::unique_ptr<Expression> expr = ConfigCompiler::CompileText("<sb-syntax>", code);
+		return true;
+	} catch (const std::exception&) {
+		return false;
+	}
+}
 
 static SbResult RunFilter(const std::string& code, bool withPermissionFilter = false)
 {
@@ -345,6 +356,7 @@ static SbResult RunFilter(const std::string& code, bool withPermissionFilter = f
 	} catch (const std::exception& ex) {
 		r.res = "err";
 		r.text = ex.what();
+		r.msg = r.text;
 	}
 	return r;
 }
@@ -402,6 +414,7 @@ static SbResult RunConsole(const std::string& code, const std::string& session)
 		r.truthy = Convert::ToBool(r0->Get("result"));
 	} else {
 		r.res = (r0->Contains("incomplete_expression") && r0->Get("incomplete_expression").ToBool()) ? "compile-err" : "err";
+		r.msg = std::string(String(r0->Get("status")));
 	}
 	return r;
 }
@@ -434,5 +447,7 @@ VOP(sb_probe)
 	o << "sb_probe id=" << a.str("id", "0") << " mode=" << mode << " verdict=" << verdict << " changed=" << (diff.empty() ? 0 : 1)
 	  << " hidden=" << (hidden ? 1 : 0) << " i_res=" << r.res << " i_truthy=" << r.truthy;
 	if (!diff.empty()) o << " i_diff=" << diff;
+	o << " i_compiles=" << SbCompiles(code);
+	if (!r.msg.empty() && a.num("msg", 0) != 0) o << " i_msg=" << HexEnc(r.msg.substr(0, 160));
 	Out(o.str());
 }
